@@ -20,14 +20,17 @@ THEOREMS = ["Pyro.C07.C07_roundtrip_partial", "Pyro.C07.C07_roundtrip_batch_part
             "Pyro.C07.C07_gen_whitelist_resolves", "Pyro.C07.C07_gen_whitelist_covers", "Pyro.C07.C07_gen_special",
             "Pyro.C07.C07_gen_flags_sane", "Pyro.C07.C07_gen_sendable", "Pyro.C07.C07_gen_server_shape",
             "Pyro.C07.C07_gen_fallback_shape", "Pyro.C07.C07_gen_batch_fallback", "Pyro.C07.C07_gen_dict_shape",
-            "Pyro.C07.C07_gen_dispatch_shape", "Pyro.C07.C07_gen_client_shape"]
+            "Pyro.C07.C07_gen_dispatch_shape", "Pyro.C07.C07_gen_client_shape", "Pyro.C07.C07_gen_accessor_shape",
+            "Pyro.C07.C07_gen_retry_shape", "Pyro.C07.C07_gen_retry_classes", "Pyro.C07.C07_retry_never_none",
+            "Pyro.C07.C07_retry_forwarded_once", "Pyro.C07.C07_roundtrip_retry", "Pyro.C07.C07_retry_bound_matters"]
 SUITES = ["single", "batch", "decode"]
 RULE = ("ALL exception classes of vars(builtins) and all PyroError subclasses of vars(Pyro5.errors) (enumerated, 77 on this "
         "interpreter) x argument tuples the class's constructor accepts with e.args == args (class-specific shapes for the "
         "Unicode errors; values from each serializer's lossless domain: None/bool/int/str/float/list/dict, tuples for "
         "serpent+marshal, bytes for marshal+msgpack) x attribute dicts (0-3 custom attributes, '__notes__', a pre-set "
         "_pyroTraceback) x 4 serializers x call kinds plain / callback / attribute get / attribute set / stream item / batch "
-        "member at position 0-3 with 0-2 calls after it, against a real Daemon (thread-pool server, unix socket); plus "
+        "member at position 0-3 with 0-2 calls after it, method calls through proxies with _pyroMaxRetries 0/1/2, the server object "
+        "being a delegating wrapper (defines __getattr__), against a real Daemon (thread-pool server, unix socket); plus "
         "unserialisable argument/attribute values (object(), lock, builtin function, bound method), classes unknown to the "
         "receiver (with and without '__' in the module name), exceptions whose args were reassigned so that the receiver's "
         "constructor rejects them, and (suite decode) class dicts fed to recreate_classes reaching every branch of dict_to_class. "
@@ -39,7 +42,8 @@ ASSUMPTIONS = [
     "exception constructors are CPython's: (construct c args).args = args on the generated domain (checked per case in isolation)",
     "no application converter is registered for exception classes or for Pyro5.core._ExceptionWrapper (register_class_to_dict / "
     "register_dict_to_class)",
-    "thread-pool server (config.SERVERTYPE='thread'), no oneway calls, MAX_RETRIES=0",
+    "thread-pool server (config.SERVERTYPE='thread'), no oneway calls; retries per proxy (_pyroMaxRetries 0, 1, 2), the remote "
+    "code behaves the same on every attempt",
 ]
 TRUSTED = ["props/c07_rig.py: the in-process Daemon/Proxy rig and the canonical text forms of values and exceptions",
            "_pyroTraceback is compared only as 'a non-empty list of str' (traceback formatting is not modelled)"]
@@ -249,6 +253,8 @@ def gen_cases(ctx, rng, n_extra):
             c["before"] = to_js([gen_value(rng, ser) for _ in range(rng.randint(0, 3))])
         if kind == "b":
             c["after"] = rng.randint(0, 2)
+        if kind in ("p", "c") and shape_pick is not None:
+            c["retries"] = shape_pick % 3         # proxy._pyroMaxRetries 0 / 1 / 2, rotating through classes and serializers
         cases.append(c)
     # exhaustive sweep
     i = 0
@@ -321,6 +327,9 @@ def gen_cases(ctx, rng, n_extra):
         if c["kind"] == "b":
             c["after"] = 0
         cases.append(c)
+    for c in cases:
+        if c["kind"] in ("p", "c") and "retries" not in c:
+            c["retries"] = rng.choice([0, 0, 1, 2])
     return cases
 
 
@@ -362,7 +371,10 @@ def run_call(rig, cmap, c):
     rig.H.exc = e
     before = [R.realise(v) for v in from_js(c.get("before", []))]
     rig.H.before = before
+    rig.H.runs = 0
     p = rig.proxy(ser)
+    retries = int(c.get("retries", 0)) if kind in ("p", "c") else 0
+    p._pyroMaxRetries = retries       # only method calls go through the retry loop (_RemoteMethod.__call__)
     o.yielded = []
     o.caught = None
     o.value = None
@@ -399,12 +411,15 @@ def run_call(rig, cmap, c):
     except BaseException as x:      # noqa: B902 — the property is about every class, KeyboardInterrupt included
         o.caught = x
     o.released = p._pyroConnection is None
+    o.tries = rig.H.runs
+    p._pyroMaxRetries = 0             # the probe of the connection's state is a single attempt
     try:
         o.next = "ok" if p.ok(4711) == 4711 else "wrong-result"
     except BaseException as x:      # noqa: B902
         o.next = "fail:" + type(x).__name__
     if not flags(cls)["exc"]:
-        rig.note_worker_killed()
+        for _ in range(max(1, o.tries)):
+            rig.note_worker_killed()
     return o
 
 
@@ -443,18 +458,29 @@ def real_line(o, derr):
         else:
             outcome = "raised:" + R.enc_machinery_error(x)
     # the items a stream delivered before the failing one are separate calls: not part of this call's observation
-    return "%s y=%s rel=%d usable=%d" % (outcome, enc([] if o.kind == "i" else o.yielded, True), 1 if o.released else 0,
+    line = "%s y=%s rel=%d usable=%d" % (outcome, enc([] if o.kind == "i" else o.yielded, True), 1 if o.released else 0,
                                          1 if o.next == "ok" else 0)
+    if o.kind in ("p", "c"):
+        if x is None:
+            line = "returned-none"
+        line += " tries=%d" % o.tries       # how often the remote code ran = how often the call was sent
+    elif o.kind != "b":
+        line += " tries=1"
+    return line
 
 
 def model_line(out):
     """driver reply -> the observable part: outcome, yielded, released, usable (= conn active or released)"""
+    tries = ""
+    if out.rsplit(" ", 1)[-1].startswith("tries="):
+        out, t = out.rsplit(" ", 1)
+        tries = " " + t
     parts = out.rsplit(" ", 3)
     if len(parts) != 4 or not parts[2].startswith("rel=") or not parts[3].startswith("conn="):
-        return out
+        return out + tries
     rel = parts[2] == "rel=1"
     usable = rel or parts[3] == "conn=a"
-    return "%s %s rel=%d usable=%d" % (parts[0], parts[1], 1 if rel else 0, 1 if usable else 0)
+    return "%s %s rel=%d usable=%d%s" % (parts[0], parts[1], 1 if rel else 0, 1 if usable else 0, tries)
 
 
 def ctor_spec(cls, q, margs):
@@ -480,14 +506,16 @@ def driver_line(c, o, derr, batch_fallback):
         steps = ["R" + enc(v) for v in from_js(c.get("before", []))] + [ex] + ["RI%d" % (100 + i) for i in range(c.get("after", 0))]
         return "batch %d %s %s %d %s %s" % (SEQ_OUT[c["ser"]], ue, ctor, 1 if batch_fallback else 0, TB_TOKEN, " ".join(steps))
     kind = c["kind"]
-    return "single %d %s %s %s %s %s" % (SEQ_OUT[c["ser"]], ue, ctor, kind, TB_TOKEN, ex)
+    retries = int(c.get("retries", 0)) if kind in ("p", "c") else 0
+    return "single %d %d %s %s %s %s %s" % (retries, SEQ_OUT[c["ser"]], ue, ctor, kind, TB_TOKEN, ex)
 
 
 # ----------------------------------------------------------------------------------------------
 # D: the property itself, on the real observation (independent of the model)
 # ----------------------------------------------------------------------------------------------
 def describe(c):
-    return "%s/%s %s(%s) attrs=%s" % (c["ser"], KIND_NAME[c["kind"]], c["cls"], json.dumps(c["args"])[:80], json.dumps(c["attrs"])[:80])
+    return "%s/%s%s %s(%s) attrs=%s" % (c["ser"], KIND_NAME[c["kind"]], " max_retries=%d" % c["retries"] if c.get("retries") else "",
+                                        c["cls"], json.dumps(c["args"])[:80], json.dumps(c["attrs"])[:80])
 
 
 def check_property(ctx, c, o, derr):
